@@ -71,7 +71,7 @@ NAME_POOL = ['a', 'b', 'c', 'mu', 'sigma', 't1', 't2', 't10', 'theta', 'z', 'B',
 EXTRA_POOL = ['d', 'S1', 'S2', 'zz_sum']
 VALUE_FLAVOURS = ['encoded', 'gauss', 'wide', 'awkward', 'ties']
 CHAIN_FLAVOURS = ['encoded', 'ar1', 'rw', 'gauss', 'wide']
-WEIGHT_FLAVOURS = ['none', 'random', 'zeros', 'normalised', 'pow2']
+WEIGHT_FLAVOURS = ['none', 'random', 'zeros', 'normalised', 'pow2', 'tiny']
 QTOL = 1e-12
 RTOL = 1e-9
 AMBIG = 1e-9
@@ -166,6 +166,9 @@ def _weights(rg, flavour, n):
     if flavour == 'normalised':
         w = rg.uniform(0.01, 1.0, size=n)
         return w / w.sum()
+    if flavour == 'tiny':
+        # unnormalised importance weights on a very small overall scale (density ratios): same relative weights
+        return rg.uniform(0.01, 10.0, size=n) * 10.0 ** rg.uniform(-14, -9)
     if flavour == 'pow2':
         return 2.0 ** rg.integers(-4, 5, size=n)
     raise ValueError(flavour)
